@@ -679,7 +679,9 @@ def oracle(inp, obs):
 
 def _touched_exec(inp):
     touched = {i for _, i in inp["sel"]}
-    return any(e[0] in touched and e[3] == "f" and e[5] for e in list(inp["basis"]) + list(inp["wt"]))
+    # with an intermediate commit the dirstate's recorded bit comes from rev-2 (mid)
+    return any(e[0] in touched and e[3] == "f" and e[5]
+               for e in list(inp["basis"]) + list(inp["wt"]) + list(inp.get("mid") or []))
 
 
 def finding_matches(fid, inp, obs, why):
